@@ -233,6 +233,7 @@ func (c *LocalActionsCache) FindMetadata(spec string) (*ActionMetadata, bool, er
 		return m, true, nil
 	}
 
+	verifCachePoint("action", spec)
 	dir := filepath.Join(c.proj.RootDir(), filepath.FromSlash(spec))
 	b, f, ok := c.readLocalActionMetadataFile(dir)
 	if !ok {
